@@ -225,6 +225,10 @@ func (c *Conn) playDev(step string, d Dev, req *Event) (ended bool) {
 	return false
 }
 
+// IdleAfterBind is how long the client may stay silent after a successful bind before the peer takes the
+// negotiation to be complete (the harness scales it while confirming timing-dependent verdicts).
+var IdleAfterBind = 250 * time.Millisecond
+
 // Negotiate plays the server side of session negotiation reactively: it
 // answers each client request according to the script until the client sends
 // something that is not part of negotiation, the stream ends, or a deviation
@@ -257,11 +261,20 @@ func (c *Conn) Negotiate(s *Script, timeout time.Duration) *Outcome {
 		}
 		return false
 	}
+	bound := false
 	for time.Now().Before(deadline) {
 		var ev Event
 		if expectOpen {
 			ev = c.ExpectOpen(time.Until(deadline))
 			expectOpen = false
+		} else if bound && !faulted {
+			// After a successful bind the client may be done (Client.Resume sends nothing more): when it stays
+			// silent for IdleAfterBind the negotiation is taken to be complete.
+			ev = c.NextElem(IdleAfterBind)
+			if ev.Kind == "timeout" {
+				out.Established = true
+				return out
+			}
 		} else {
 			ev = c.NextElem(time.Until(deadline))
 		}
@@ -376,6 +389,7 @@ func (c *Conn) Negotiate(s *Script, timeout time.Duration) *Outcome {
 				}) {
 					return out
 				}
+				bound = !faulted
 			case e.Name.Local == "iq" && strings.Contains(e.Raw, NSSession):
 				if reply("session", &e, func() {
 					c.Send(fmt.Sprintf("<iq type='result' id='%s'/>", xmlEsc(e.Attr["id"])))
